@@ -520,3 +520,48 @@ func Verif_C13_args() {
 		}
 	}
 }
+
+// Lookups on the tree shape the parser builds for a scoped object: the Device's members live in an unnamed scope
+// block under it.   \ -> DEV (Device d) -> B (unnamed scope block) -> X (named x);   \ -> Y (named y)
+func Verif_C13_find_scope_block() {
+	var names [3][amlNameLen]byte
+	for i := range names {
+		for k := 0; k < amlNameLen; k++ {
+			c := zzverif.U8("name")
+			zzverif.Assume(zzverif.Or(c == '_', zzverif.And(c >= 'A', c <= 'Z')))
+			names[i][k] = c
+		}
+		for j := 0; j < i; j++ {
+			zzverif.Assume(names[i] != names[j])
+		}
+	}
+	d, x, y := names[0], names[1], names[2]
+	tree := NewObjectTree()
+	root := tree.newNamedObject(pOpIntScopeBlock, 0, [amlNameLen]byte{'\\'})
+	dev := tree.newNamedObject(pOpDevice, 0, d)
+	blk := tree.newObject(pOpIntScopeBlock, 0)
+	xo := tree.newNamedObject(pOpName, 0, x)
+	yo := tree.newNamedObject(pOpName, 0, y)
+	tree.append(root, dev)
+	tree.append(dev, blk)
+	tree.append(blk, xo)
+	tree.append(root, yo)
+	cat := func(parts ...[]byte) []byte {
+		var out []byte
+		for _, p := range parts {
+			out = append(out, p...)
+		}
+		return out
+	}
+	// absolute and relative two-segment paths reach the member through the scope block
+	zzverif.Assert(tree.Find(blk.index, cat([]byte{'\\'}, d[:], x[:])) == xo.index, "an absolute multi-segment path through a scoped object reaches its member")
+	zzverif.Assert(tree.Find(root.index, cat(d[:], x[:])) == xo.index, "a relative multi-segment path through a scoped object reaches its member")
+	zzverif.Assert(tree.Find(root.index, cat([]byte{'\\', 0x2e}, d[:], x[:])) == xo.index, "the same with the dual-name prefix byte left in the expression")
+	// a parent-prefixed name is looked up above the scope it starts from: it never resolves back into that scope
+	zzverif.Assert(tree.Find(blk.index, cat([]byte{'^'}, x[:])) != xo.index, "a parent-prefixed name does not resolve to a member of the scope the lookup started from")
+	zzverif.Assert(tree.Find(blk.index, cat([]byte{'^', '^'}, x[:])) != xo.index, "two parent prefixes neither")
+	// the single-segment search climbs from the block through the Device to the root
+	zzverif.Assert(tree.Find(blk.index, y[:]) == yo.index, "a single segment is searched in every enclosing scope up to the root")
+	zzverif.Assert(tree.Find(blk.index, x[:]) == xo.index, "a single segment is found in the starting scope first")
+	zzverif.Reach("done")
+}
